@@ -60,7 +60,7 @@ def builtin_forms(chk, P):
         inst = F.form_instance(I, P, name)
         params = F.call_params(inst)
         if isinstance(params, tuple):
-            for order in range(0, 9):
+            for order in range(0, 17 if chk.tier == "thorough" else 9):
                 args = [Num(ep.sym("r"))] + [Num(ep.sym("c%d" % i)) for i in range(order + 1)]
                 v = I.num(I.call(inst, args, {}))
                 d1 = I.num(I.call(I.getattr(inst, "deriv"), args, {}))
